@@ -151,9 +151,31 @@ func Eval(c *core.Ctx, line string) *core.Case {
 		order := unOpt(f[10])
 		buf := append([]byte{}, b...)
 		buf = buf[:len(buf):len(buf)]
+		// the parameter request list and the option values are handed over the way a zero-copy server
+		// does it: as sub-slices of one array (the request), the list with spare capacity in front of the
+		// values.  An encoder that appends to its `order` argument writes into that array.
+		arena := append([]byte{}, order...)
+		arena = append(arena, 0xa5, 0xa5, 0xa5, 0xa5, 0xa5, 0xa5, 0xa5, 0xa5)
 		om := packet.DHCP4Options{}
-		for k, v := range opts {
-			om[packet.DHCP4OptionCode(k)] = append([]byte{}, v...)
+		ks := make([]int, 0, len(opts))
+		for k := range opts {
+			ks = append(ks, int(k))
+		}
+		sort.Ints(ks)
+		type span struct{ k, lo, hi int }
+		var spans []span
+		for _, k := range ks {
+			spans = append(spans, span{k, len(arena), len(arena) + len(opts[byte(k)])})
+			arena = append(arena, opts[byte(k)]...)
+		}
+		arena = arena[:len(arena):len(arena)]
+		for _, sp := range spans {
+			om[packet.DHCP4OptionCode(sp.k)] = arena[sp.lo:sp.hi:sp.hi]
+		}
+		arenaBefore := append([]byte{}, arena...)
+		var orderArg []byte
+		if order != nil {
+			orderArg = arena[:len(order)]
 		}
 		toAddr := func(x []byte) netip.Addr {
 			if x == nil {
@@ -169,7 +191,7 @@ func Eval(c *core.Ctx, line string) *core.Case {
 		}
 		res := core.Safely(func() string {
 			r := packet.EncodeDHCP4(buf, packet.DHCP4OpCode(opcode), packet.DHCP4MessageType(mt), chw, toAddr(ci), toAddr(yi), xid, f[8] == "1", om,
-				append([]byte{}, order...))
+				orderArg)
 			if r == nil {
 				return "nil"
 			}
@@ -219,6 +241,11 @@ func Eval(c *core.Ctx, line string) *core.Case {
 		}
 		return &core.Case{Line: strings.Join(f, " "), Impl: res, Trivial: len(b) < 300,
 			Oracle: func() (string, string) {
+				// the encoder's inputs (parameter request list, option values – here sub-slices of one array
+				// as in a zero-copy server) are read-only: only the destination buffer may be written
+				if !bytes.Equal(arena, arenaBefore) {
+					return fmt.Sprintf("EncodeDHCP4 modified its inputs: the array holding the order list (with spare capacity) and the option values was %x, is %x", arenaBefore, arena), ""
+				}
 				if !fits || len(b) < 300 {
 					return "", "" // outside "all option maps whose encoding fits"
 				}
